@@ -362,6 +362,10 @@ def run(ctx):
         for e_ in (hi_e, float(np.nextafter(hi_e, ub_)), float(np.nextafter(hi_e, lb_))):
             for x0_ in (NA, 0.5 * (lb_ + ub_)):
                 mg += [[(x0_, lb_, e_, ub_, ub_)], [(x0_, lb_, e_, ub_ - 0.5 * m_, ub_)]]
+    # a plausible box one ulp wide that touches a hard bound, x0 absent (the random start must not land on the bound)
+    for lb_, ub_ in ((-2.0, float(np.nextafter(-1, 0))), (float(np.nextafter(1, 2)) - 2.0 ** -52 * 0, 3.0)):
+        mg += [[(NA, lb_, float(np.nextafter(ub_, lb_)), NA, ub_)], [(NA, lb_, float(np.nextafter(ub_, lb_)), ub_, ub_)],
+               [(NA, lb_, NA, float(np.nextafter(lb_, ub_)), ub_)], [(NA, lb_, lb_, float(np.nextafter(lb_, ub_)), ub_)]]
     cells = cells1 + multi_cells(q) + mg
     B = 600
     blocks = [cells[i:i + B] for i in range(0, len(cells), B)]
